@@ -8,7 +8,11 @@ def main():
     if missing:
         print('selftest: missing tools: %s' % missing)
         sys.exit(1)
-    print('selftest ok')
+    from mc import cpu, irsem
+    cpu.ensure_runner()
+    cpu.selftest()
+    irsem.selfcheck()
+    print('selftest ok (tools, native CPU runner, irsem)')
 
 
 if __name__ == '__main__':
